@@ -21,8 +21,10 @@ value itself:
   significant digits and a net exponent within ±22.
 
 "Every number node" (`AllNums`, structural recursion over the tree) includes the member values that a later duplicate
-key discards; every number of the returned value is `numOf` of one of these nodes since `canon` only copies
-(`objectOf` selects among the member values). What remains open is only what C07 / C08 themselves leave: the size bounds
+key discards. Both theorems therefore carry a second, value-level conjunct: every number `x` of the returned value
+(`numLeaves v`: array elements and object member values at any depth) is `numOf` of a number node `p` of the tree
+(`numNodes t`; `Proofs.C02Floats.canon_leaves`: `canon` only copies, `objectOf` selects among the member values), and
+`NearestNum p x` resp. `Within5Num p x` holds. What remains open is only what C07 / C08 themselves leave: the size bounds
 above, and for the default build the 5-ulp (not 0.5-ulp) bound outside the short window.
 -/
 namespace SJ.Props.C02Floats
@@ -36,10 +38,14 @@ theorem c02_floats_nearest_fr (env : Env) (henv : env.tgt = .value) (hfr : env.c
     (hap : env.cfg.ap = false) (bs : Bytes) (hlen : bs.length + 20 < 2 ^ 29) (v : JV)
     (h : parseTop env bs = .ok v) :
     ∃ t, JsonText bs t ∧ Spec.Canon.canon (specCfg env.cfg) t = some v ∧
-      AllNums (LeafNearest (specCfg env.cfg)) t := by
+      AllNums (LeafNearest (specCfg env.cfg)) t ∧
+      ∀ x ∈ numLeaves v, ∃ p ∈ numNodes t, Spec.Canon.numOf (specCfg env.cfg) p = some x ∧ NearestNum p x := by
   obtain ⟨t, ht, hc⟩ := SJ.Props.C01Iff.c02_value_is_canon env henv bs v h
-  refine ⟨t, ht, hc, jsonText_allNums _ ht fun p hwf hl => ?_⟩
-  exact leaf_fr (specCfg env.cfg) hfr hap p hwf (by omega)
+  have ha : AllNums (LeafNearest (specCfg env.cfg)) t :=
+    jsonText_allNums _ ht fun p hwf hl => leaf_fr (specCfg env.cfg) hfr hap p hwf (by omega)
+  refine ⟨t, ht, hc, ha, fun x hx => ?_⟩
+  obtain ⟨p, hp, hn⟩ := canon_leaves _ t v hc x hx
+  exact ⟨p, hp, hn, nearestNum_of_leaf _ p (allNums_mem _ t ha p hp) x hn⟩
 
 /-- the document `{"a":[0.1,-2.5e-3],"n":7}` -/
 def exDoc : Bytes := [0x7b, 0x22, 0x61, 0x22, 0x3a, 0x5b, 0x30, 0x2e, 0x31, 0x2c, 0x2d, 0x32, 0x2e, 0x35, 0x65, 0x2d, 0x33,
@@ -54,6 +60,10 @@ def exP2 : NumParts := ⟨true, [0x32], [0x2e, 0x35], [0x65, 0x2d, 0x33]⟩
 /-- non-vacuity (hypotheses): the document is accepted under `float_roundtrip` with that value, and is short enough -/
 example : (parseTop ⟨{ fr := true }, .slice, .value⟩ exDoc).isOk exVal = true ∧ exDoc.length + 20 < 2 ^ 29 := by
   decide +kernel
+/-- the numbers of that value, and the literals of the text's tree they come from -/
+example : numLeaves exVal = [.float 0x3fb999999999999a, .float 0xbf647ae147ae147b, .pos 7] := by decide
+example : numNodes (.obj [([.raw 0x61], .arr [.num exP1, .num exP2]), ([.raw 0x6e], .num ⟨false, [0x37], [], []⟩)]) =
+    [exP1, exP2, ⟨false, [0x37], [], []⟩] := by decide
 /-- … and the conclusion, checked independently on the two float leaves: their exact values are `1/10` and `25/10000`
     and the floats stored are the nearest-even doubles of these -/
 example : (litOf exP1).exact = (1, 10) ∧ (litOf exP2).exact = (25, 10000) := by decide
@@ -66,7 +76,7 @@ theorem c02_float_document_nearest_fr (env : Env) (henv : env.tgt = .value) (hfr
     (h : parseTop env bs = .ok (.num (.float b))) :
     ∃ p, JsonText bs (.num p) ∧ roundNE64 p.minus (litOf p).exact.1 (litOf p).exact.2 = some b ∧
       IsNearestEven64 p.minus (litOf p).exact.1 (litOf p).exact.2 b := by
-  obtain ⟨t, ht, hc, ha⟩ := c02_floats_nearest_fr env henv hfr hap bs hlen _ h
+  obtain ⟨t, ht, hc, ha, _⟩ := c02_floats_nearest_fr env henv hfr hap bs hlen _ h
   cases t with
   | num p =>
     simp only [Spec.Canon.canon, Option.map_eq_some_iff, JV.num.injEq] at hc
@@ -93,10 +103,14 @@ theorem c02_floats_5ulp_default (env : Env) (henv : env.tgt = .value) (hfr : env
     (hap : env.cfg.ap = false) (bs : Bytes) (hlen : bs.length < 2 ^ 30) (v : JV)
     (h : parseTop env bs = .ok v) :
     ∃ t, JsonText bs t ∧ Spec.Canon.canon (specCfg env.cfg) t = some v ∧
-      AllNums (Leaf5ulp (specCfg env.cfg)) t := by
+      AllNums (Leaf5ulp (specCfg env.cfg)) t ∧
+      ∀ x ∈ numLeaves v, ∃ p ∈ numNodes t, Spec.Canon.numOf (specCfg env.cfg) p = some x ∧ Within5Num p x := by
   obtain ⟨t, ht, hc⟩ := SJ.Props.C01Iff.c02_value_is_canon env henv bs v h
-  refine ⟨t, ht, hc, jsonText_allNums _ ht fun p hwf hl => ?_⟩
-  exact leaf_default (specCfg env.cfg) hfr hap p hwf (by omega)
+  have ha : AllNums (Leaf5ulp (specCfg env.cfg)) t :=
+    jsonText_allNums _ ht fun p hwf hl => leaf_default (specCfg env.cfg) hfr hap p hwf (by omega)
+  refine ⟨t, ht, hc, ha, fun x hx => ?_⟩
+  obtain ⟨p, hp, hn⟩ := canon_leaves _ t v hc x hx
+  exact ⟨p, hp, hn, within5Num_of_leaf _ p (allNums_mem _ t ha p hp) x hn⟩
 
 /-- non-vacuity: the same document in the default build (both floats are inside the exact window, so the same bits), and
     a leaf outside the window: `[12345678901234567890e-300]` gives `0x059caf4b164e4802`, within 5 ulp of the exact value -/
